@@ -1,7 +1,7 @@
 (* Lsm/History.v — histories of the store model: writes, flushes and admissible compactions.
    Definitions (executable) first, then the invariant proof. *)
 From Coq Require Import NArith List Bool Lia Arith Permutation.
-From Blue Require Import Gen.Const_Lsm Lsm.Model Lsm.KeyOrder Lsm.LoadProofs Lsm.Ordered Lsm.ListLemmas Lsm.SortLemmas Lsm.CompactProofs.
+From Blue Require Import Gen.Const_Lsm Lsm.Model Lsm.KeyOrder Lsm.LoadProofs Lsm.Ordered Lsm.ListLemmas Lsm.SortLemmas Lsm.CompactProofs Lsm.GcProofs.
 Import ListNotations.
 Open Scope N_scope.
 
@@ -12,17 +12,13 @@ Inductive op :=
 | OWrite (b : list (key * option (list N)))      (* put / del / write-batch: one sequence number *)
 | OFlush (id sz : N)                             (* rollover + flush of the memtable into L0 *)
 | OCompact (c : compaction) (outs : list file)   (* trivial move or merging compaction *)
+| OGc (c : compaction) (outs : list file)        (* garbage collection: a merge into the last level that
+                                                   may drop what the policy permits *)
 | OReopen (id sz : N) (v' : version) (seq' : N). (* exit + open: the log is replayed into one L0 file,
                                                    then the tree is rebuilt from the files' metadata
                                                    (lsmtk/src/tree/recover.rs).  The rebuilt arrangement
                                                    v' is an INPUT here: recover is not modelled, its
                                                    result is checked (same entries, well formed, ordered). *)
-
-Definition entry_eqb (a b : entry) : bool :=
-  key_eqb (ek a) (ek b) && (ets a =? ets b) &&
-  match ev a, ev b with None, None => true | Some p, Some q => key_eqb p q | _, _ => false end.
-Definition subsetb (a b : list entry) : bool := forallb (fun e => existsb (entry_eqb e) b) a.
-Definition file_entries (v : version) : list entry := flat_map fents (flat v).
 
 Fixpoint nodup_keysb (ks : list key) : bool :=
   match ks with [] => true | k :: r => negb (existsb (key_eqb k) r) && nodup_keysb r end.
@@ -36,6 +32,8 @@ Definition acceptedb (s : store) (o : op) : bool :=
   | OFlush _ _ => true
   | OCompact c outs => valid_compactionb (ver s) c && outputs_okb (ver s) c outs &&
                        wf_versionb (apply_compaction (ver s) c outs)
+  | OGc c outs => valid_compactionb (ver s) c && (S (cupper c) =? length (ver s))%nat &&
+                  gc_outputs_okb (ver s) c outs && wf_versionb (apply_compaction (ver s) c outs)
   | OReopen id sz v' seq' =>
       let s1 := flush s id sz in
       subsetb (file_entries (ver s1)) (file_entries v') && subsetb (file_entries v') (file_entries (ver s1)) &&
@@ -48,6 +46,7 @@ Definition step (s : store) (o : op) : store :=
   | OWrite b => write s b
   | OFlush id sz => flush s id sz
   | OCompact c outs => compact s c outs
+  | OGc c outs => compact s c outs
   | OReopen id sz v' seq' => mkS [] v' seq'
   end.
 
@@ -383,6 +382,37 @@ Proof.
   - intros k. rewrite Hk. apply Hk1.
 Qed.
 
+(* ---- garbage collection ---- *)
+Lemma gc_inv s c outs : Inv s -> acceptedb s (OGc c outs) = true ->
+  Inv (compact s c outs) /\ forall k, top_value (compact s c outs) k = top_value s k.
+Proof.
+  intros I Ha. cbn [acceptedb] in Ha.
+  apply andb_prop in Ha. destruct Ha as [Ha Hwf]. apply andb_prop in Ha. destruct Ha as [Ha Hgc].
+  apply andb_prop in Ha. destruct Ha as [Hv Htop]. apply Nat.eqb_eq in Htop.
+  pose proof (fun k => gc_preserves_reads s c outs k (inv_wf s I) (inv_ord s I) Hv Htop Hgc) as G.
+  split.
+  - constructor.
+    + exact Hwf.
+    + intros k. apply (G k).
+    + intros e He. apply in_all_entries_kview in He. apply (G (ek e)) in He. apply in_all_entries_kview in He.
+      exact (inv_seq s I e He).
+    + intros e e' He He'. cbn [compact mem] in He.
+      (* e' is in a file of the new version; it is an entry of the old store; were it only in the
+         old memtable it would occur twice in the new (strictly descending) view *)
+      assert (Hk' : In e' (flat_map (fun f => kfilter (ek e') (fents f)) (flat (ver (compact s c outs))))).
+      { apply in_flat_map in He'. destruct He' as (f & Hf & Hef). apply in_flat_map. exists f. split; [exact Hf|].
+        apply in_kfilter. tauto. }
+      assert (Hnew : In e' (kview (compact s c outs) (ek e'))) by (unfold kview; apply in_or_app; now right).
+      pose proof (proj2 (proj2 (G (ek e'))) e' Hnew) as Hold.
+      unfold kview in Hold. apply in_app_or in Hold. destruct Hold as [Hm|Hf].
+      * exfalso. destruct (G (ek e')) as (_ & Hd & _). unfold kview in Hd. cbn [compact mem] in Hd.
+        apply desc_ts_app in Hd. destruct Hd as (_ & _ & Hd). specialize (Hd e' e' Hm Hk'). lia.
+      * apply (inv_mem_new s I e e' He).
+        apply in_flat_map in Hf. destruct Hf as (f & Hf & Hef). apply in_flat_map. exists f. split; [exact Hf|].
+        apply in_kfilter in Hef. tauto.
+  - intros k. unfold top_value. destruct (G k) as (Hh & _ & _). exact Hh.
+Qed.
+
 Lemma top_value_write s b k : nodup_keysb (map fst b) = true ->
   top_value (write s b) k =
   match find (fun kv => key_eqb (fst kv) k) b with Some kv => snd kv | None => top_value s k end.
@@ -397,7 +427,7 @@ Lemma run_correct ops : forall s m, Inv s -> ver s <> [] -> (forall k, top_value
 Proof.
   induction ops as [|o ops IH]; intros s m I Hne Hm Hacc; cbn [run fold_left all_accepted] in *; [tauto|].
   apply andb_prop in Hacc. destruct Hacc as [Ha Hacc].
-  destruct o as [b|id sz|c outs|id sz v' seq']; cbn [step spec_step] in *.
+  destruct o as [b|id sz|c outs|c outs|id sz v' seq']; cbn [step spec_step] in *.
   - apply IH; [now apply write_inv|exact Hne| |exact Hacc].
     intros k. rewrite (top_value_write s b k Ha). destruct (find _ b); [reflexivity|apply Hm].
   - destruct (flush_inv s id sz I Hne) as [I' Hne'].
@@ -407,6 +437,9 @@ Proof.
     intros k. unfold top_value.
     cbn [acceptedb] in Ha. apply andb_prop in Ha. destruct Ha as [Ha _]. apply andb_prop in Ha. destruct Ha as [Hv Ho].
     rewrite (compaction_preserves_kview s c outs (inv_wf s I) (inv_ord s I) Hv Ho k). apply Hm.
+  - destruct (gc_inv s c outs I Ha) as (I' & Ht).
+    apply IH; [exact I'|now apply apply_compaction_nonempty| |exact Hacc].
+    intros k. rewrite Ht. apply Hm.
   - destruct (reopen_inv s id sz v' seq' I Hne Ha) as (I' & Hne' & Hk).
     apply IH; [exact I'|exact Hne'| |exact Hacc].
     intros k. unfold top_value. rewrite Hk. apply Hm.
